@@ -10,8 +10,19 @@
     D close <run> | …                                                   (fb: order-preserving split at the
                                                                          floating-point target size)
     T <lo> <hi>   -> ok <agree> <differ> <first-differ> | bad <n>    target size: Float vs ℚ vs TsOK
+                     (the Float value is the EXTRACTED double chain `Gen.targetSize` evaluated in hardware doubles)
+    H <perc> <run> | pre_tr | pre_va | post_tr | post_va | clears hasEva   hold-out with the evaluator (ids or id:age:diff)
+    A <call> <arg> | pre_tr | pre_va | post_tr | post_va | ret       as-is / default shake, close: nothing may change
+    E | pre_tr | pre_va | post_tr | post_va                          evaluator activity between two calls: EvalRel
+    X <strat> <param> <kind> <g> | tr1 | va1 | tr2 | va2            two consecutive observations of a monitored search
+                                   strat asis|holdout|dss, kind first|newrun|gen|end   -> ok | bad <why>
+    P <k> | tok tok …              the calls of one run(k): i<r> s<g> b<g> c<r>   -> ok | bad shape <predicted>
+    W | id:age:diff …              -> w <weight64 of each> s <weightSum64>  (model) – compared with the harness
 -/
 import Vita.C16.Model
+import Vita.C16.Protocol
+import Vita.C16.Interp
+import Vita.C16.Gen
 open Vita.C16
 
 instance (p run : Nat) (pre post : Sets Nat) : Decidable (HoldoutStep p run pre post) := by
@@ -23,10 +34,20 @@ instance (pre post : St) : Decidable (ReshuffleStep pre post) := by
 instance (c : Call) (pre : St) (r : Res) : Decidable (DssStep c pre r) := by
   cases c <;> (unfold DssStep; simp only; exact inferInstance)
 
+instance (p run : Nat) (b : Bool) (pre post : Sets Nat) (cl : Nat) : Decidable (HoldoutStepR p run b pre post cl) := by
+  unfold HoldoutStepR; exact inferInstance
+instance (pre post : St) : Decidable (EvalRel pre post) := by unfold EvalRel; exact inferInstance
+instance (pre post : St) : Decidable (ReshuffleObs pre post) := by unfold ReshuffleObs; exact inferInstance
+instance (gap g : Nat) (pre post : St) : Decidable (GenObs gap g pre post) := by unfold GenObs; exact inferInstance
+instance (pre post : St) : Decidable (FreshObs pre post) := by unfold FreshObs; exact inferInstance
+instance (pre post : St) : Decidable (EndObs pre post) := by unfold EndObs; exact inferInstance
+
 def words (s : String) : List String :=
   (s.trimAscii.toString.splitOn " ").filter (· ≠ "")
 
-def parseIds (s : String) : Option (List Nat) := (words s).mapM String.toNat?
+/-- an id, or the id of an `id:age:diff` item -/
+def parseId (w : String) : Option Nat := ((w.splitOn ":").head?).bind String.toNat?
+def parseIds (s : String) : Option (List Nat) := (words s).mapM parseId
 
 def parseEx (w : String) : Option Ex :=
   match w.splitOn ":" with
@@ -67,12 +88,7 @@ def holdoutAnswer (p run : Nat) (pre post : Sets Nat) : String :=
 
 /-- `target_size` as the C++ computes it (hardware doubles; `std::min/max` spelled out) -/
 def targetSizeF (n : Nat) : Nat :=
-  let s : Float := n.toFloat
-  let x : Float := 0.2 + 100.0 / (s + 100.0)
-  let ratio : Float := if x < 0.6 then x else 0.6          -- std::min(0.6, x)
-  let y : Float := s * ratio
-  let t : Float := if (1.0 : Float) < y then y else 1.0    -- std::max(1.0, y)
-  t.toUInt64.toNat                                          -- static_cast<std::ptrdiff_t>
+  (Gen.targetSize.evalF n).toUInt64.toNat                   -- static_cast<std::ptrdiff_t>(target_size)
 
 def dssAnswer (c : Call) (pre : St) (r : Res) (ct cv : Nat) : String :=
   if ct ≠ cv then "bad clear-counts-differ"
@@ -99,16 +115,95 @@ def tsAnswer (lo hi : Nat) : String := Id.run do
       if first = 0 then first := n
   return s!"ok {agree} {differ} {first}"
 
+def holdoutAnswerR (p run : Nat) (pre post : Sets Nat) (clears : Nat) (hasEva : Bool) : String :=
+  if decide (HoldoutStepR p run hasEva pre post clears) then holdoutAnswer p run pre post
+  else if decide (HoldoutStep p run pre post) then "bad HoldoutStepR clears"
+  else "bad HoldoutStep"
+
+def obsAnswer (strat : String) (param : Nat) (kind : String) (g : Nat) (pre post : St) : String :=
+  let okb (b : Bool) (why : String) : String := if b then "ok" else "bad " ++ why
+  match strat, kind with
+  | "asis", _ => okb (decide (EvalRel pre post)) "EvalRel"
+  | "holdout", "first" =>
+      okb (decide (HoldoutStep param 0 (⟨ids pre.tr, ids pre.va⟩ : Sets Nat) ⟨ids post.tr, ids post.va⟩)) "HoldoutStep"
+  | "holdout", _ => okb (decide (EvalRel pre post)) "EvalRel"
+  | "dss", "first" => okb (decide (FreshObs pre post)) "FreshObs"
+  | "dss", "newrun" => okb (decide (FreshObs pre post)) "FreshObs"
+  | "dss", "gen" => okb (decide (GenObs param g pre post)) "GenObs"
+  | "dss", "end" => okb (decide (EndObs pre post)) "EndObs"
+  | "dss", "idle" => okb (decide (EvalRel pre post)) "EvalRel"
+  | _, _ => "bad-op"
+
+def parseTag (w : String) : Option Tag :=
+  let n := (w.drop 1).toString.toNat?
+  match w.take 1 |>.toString with
+  | "i" => n.map Tag.init
+  | "s" => n.map Tag.shake
+  | "b" => n.map Tag.cb
+  | "c" => n.map Tag.close
+  | _ => none
+
+def showTag : Tag → String
+  | .init r => s!"i{r}" | .shake g => s!"s{g}" | .cb g => s!"b{g}" | .close r => s!"c{r}"
+
+/-- generations of each run of an observed call list: callbacks between an `init` and the next one -/
+def gensOf : List Tag → List Nat → List Nat
+  | [], acc => acc.reverse
+  | .init _ :: ts, acc => gensOf ts (0 :: acc)
+  | .cb _ :: ts, a :: acc => gensOf ts ((a + 1) :: acc)
+  | _ :: ts, acc => gensOf ts acc
+
+def protoAnswer (k : Nat) (tags : List Tag) : String :=
+  let gens := gensOf tags []
+  let pred := predictedShape gens
+  if gens.length = k ∧ pred = tags then "ok"
+  else "bad shape " ++ " ".intercalate (pred.map showTag)
+
+def weightAnswer (l : List Ex) : String :=
+  "w " ++ " ".intercalate (l.map fun e => toString (Gen.weight.eval e)) ++ " s " ++ toString (Gen.weightSum.eval l)
+
 def answer (line : String) : String :=
   match line.splitOn " | " with
   | [hd, a, b, c, d] =>
-    match words hd, parseIds a, parseIds b, parseIds c, parseIds d with
-    | ["H", p, run], some a, some b, some c, some d =>
-      match p.toNat?, run.toNat? with
-      | some p, some run => holdoutAnswer p run ⟨a, b⟩ ⟨c, d⟩
+    match words hd with
+    | ["H", p, run] =>
+      match parseIds a, parseIds b, parseIds c, parseIds d, p.toNat?, run.toNat? with
+      | some a, some b, some c, some d, some p, some run => holdoutAnswer p run ⟨a, b⟩ ⟨c, d⟩
+      | _, _, _, _, _, _ => "bad-op"
+    | ["E"] =>
+      match parseExs a, parseExs b, parseExs c, parseExs d with
+      | some a, some b, some c, some d => if decide (EvalRel ⟨a, b⟩ ⟨c, d⟩) then "ok" else "bad EvalRel"
+      | _, _, _, _ => "bad-op"
+    | ["X", strat, param, kind, g] =>
+      match parseExs a, parseExs b, parseExs c, parseExs d, param.toNat?, g.toNat? with
+      | some a, some b, some c, some d, some param, some g => obsAnswer strat param kind g ⟨a, b⟩ ⟨c, d⟩
+      | _, _, _, _, _, _ => "bad-op"
+    | _ => "bad-op"
+  | [hd, a] =>
+    match words hd with
+    | ["P", k] =>
+      match k.toNat?, (words a).mapM parseTag with
+      | some k, some tags => protoAnswer k tags
       | _, _ => "bad-op"
-    | _, _, _, _, _ => "bad-op"
+    | ["W"] =>
+      match parseExs a with
+      | some l => weightAnswer l
+      | none => "bad-op"
+    | _ => "bad-op"
   | [hd, a, b, c, d, e] =>
+    if (words hd).head? = some "H" then
+      match words hd, parseIds a, parseIds b, parseIds c, parseIds d, (words e).mapM String.toNat? with
+      | ["H", p, run], some a, some b, some c, some d, some [cl, he] =>
+        match p.toNat?, run.toNat? with
+        | some p, some run => holdoutAnswerR p run ⟨a, b⟩ ⟨c, d⟩ cl (he != 0)
+        | _, _ => "bad-op"
+      | _, _, _, _, _, _ => "bad-op"
+    else if (words hd).head? = some "A" then
+      match parseExs a, parseExs b, parseExs c, parseExs d, (words e).mapM String.toNat? with
+      | some a, some b, some c, some d, some [ret] =>
+        if a = c ∧ b = d ∧ ret = 0 then "ok" else "bad AsIsStep"
+      | _, _, _, _, _ => "bad-op"
+    else
     match parseExs a, parseExs b, parseExs c, parseExs d, (words e).mapM String.toNat? with
     | some a, some b, some c, some d, some [ret, ct, cv] =>
       let call : Option Call := match words hd with
